@@ -524,7 +524,6 @@ structure WF (s : St) : Prop where
   countEq  : s.count = s.live.length
   /-- `used` = the live ids ascending, then sentinels; `MAX` entries -/
   usedEq   : s.used = syncPlan s.MAX s.vacant
-  keepT    : ∀ i ∈ s.live, s.keep i = true
 
 theorem wf_init (mx n : Nat) (f : Flavor) (d : Bool) : WF (init mx n f d) := by
   constructor <;> simp [init]
@@ -615,10 +614,6 @@ theorem wf_specCreate {s : St} {j : Nat} {rest : List Nat} (h : WF s) (hv : s.va
       · exact absurd (.inr (.inl rfl)) hn
       · exact hr
   · simp [h.countEq]
-  · intro i hi
-    rcases List.mem_append.1 hi with hi | hi
-    · have := h.keepT i hi; split <;> simp_all
-    · simp at hi; simp [hi]
 
 theorem wf_specDrop {s : St} {id : Nat} (h : WF s) (hid : id ∈ s.live) : WF (specDrop s id) := by
   have hidm := h.liveLt id hid
@@ -645,15 +640,14 @@ theorem wf_specDrop {s : St} {id : Nat} (h : WF s) (hid : id ∈ s.live) : WF (s
       · exact .inr hid'
       · exact .inl (this.2 (fun hl => hn ⟨hid', hl⟩))
   · rw [List.length_erase_of_mem hid, h.countEq]
-  · intro i hi; exact h.keepT i (List.mem_of_mem_erase hi)
 
 theorem wf_pubAll {s : St} {ev : Nat} {l : List Nat} (h : WF s) : WF (pubAll s ev l) := by
-  obtain ⟨a, b, c, d, e, f, g, i, j, k⟩ := h
+  obtain ⟨a, b, c, d, e, f, g, i, j⟩ := h
   constructor <;> simp <;> assumption
 
 theorem wf_specSend {s : St} {ev : Nat} (h : WF s) : WF (specSend s ev) := by
   have hp := wf_pubAll (ev := ev) (l := usedIds s.MAX s.vacant) h
-  obtain ⟨a, b, c, d, e, f, g, i, j, k⟩ := hp
+  obtain ⟨a, b, c, d, e, f, g, i, j⟩ := hp
   simp only [specSend]
   split
   · constructor <;> simp_all
@@ -662,14 +656,19 @@ theorem wf_specSend {s : St} {ev : Nat} (h : WF s) : WF (specSend s ev) := by
     · exact h
 
 theorem wf_specPoll {s : St} {id : Nat} (h : WF s) : WF (specPoll s id) := by
-  obtain ⟨a, b, c, d, e, f, g, i, j, k⟩ := h
+  obtain ⟨a, b, c, d, e, f, g, i, j⟩ := h
   simp only [specPoll]
   split
   · constructor <;> simp <;> assumption
   · constructor <;> assumption
 
 theorem wf_release {s : St} {ev : Nat} (h : WF s) : WF (apply s (.release ev)) := by
-  obtain ⟨a, b, c, d, e, f, g, i, j, k⟩ := h
+  obtain ⟨a, b, c, d, e, f, g, i, j⟩ := h
+  constructor <;> simp [apply] <;> assumption
+
+/-- `cancel_stream(id)` only clears `keep id` -/
+theorem wf_cancel {s : St} {id : Nat} (h : WF s) : WF (apply s (.cancel id)) := by
+  obtain ⟨a, b, c, d, e, f, g, i, j⟩ := h
   constructor <;> simp [apply] <;> assumption
 
 /-! ### the completed operations in a `WF` state -/
@@ -716,6 +715,8 @@ inductive Op where
   | send (ev : Nat)
   | poll (id : Nat)
   | release (ev : Nat)
+  /-- `cancel_stream(id)`: tell listener `id` to end (it may still be polled, and is dropped later) -/
+  | cancel (id : Nat)
   deriving DecidableEq, Repr
 
 /-- one completed operation on thread 0 -/
@@ -725,6 +726,7 @@ def exec1 (s : St) : Op → St
   | .send ev => opSend 0 ev s
   | .poll id => opPoll 0 id s
   | .release ev => apply s (.release ev)
+  | .cancel id => apply s (.cancel id)
 
 def exec (s : St) (h : List Op) : St := h.foldl exec1 s
 
@@ -733,10 +735,11 @@ def exec (s : St) (h : List Op) : St := h.foldl exec1 s
 theorem exec_append (s : St) (h₁ h₂ : List Op) : exec s (h₁ ++ h₂) = exec (exec s h₁) h₂ := by
   simp [exec, List.foldl_append]
 
-/-- `create` needs a free id (the source panics otherwise), `drop` a live listener -/
+/-- `create` needs a free id (the source panics otherwise), `drop` and `cancel` a live listener -/
 def Legal (s : St) : Op → Prop
   | .create => s.live.length < s.MAX
   | .drop id => id ∈ s.live
+  | .cancel id => id ∈ s.live
   | _ => True
 
 def LegalH : St → List Op → Prop
@@ -767,6 +770,7 @@ theorem wf_exec1 {s : St} {op : Op} (h : WF s) (hl : Legal s op) : WF (exec1 s o
   | send ev => simp only [exec1, (opSend_spec 0 ev h).2]; exact wf_specSend h
   | poll id => simp only [exec1, (opPoll_spec 0 id h).2]; exact wf_specPoll h
   | release ev => exact wf_release h
+  | cancel id => exact wf_cancel h
 
 theorem wf_exec {s : St} {hs : List Op} (h : WF s) (hl : LegalH s hs) : WF (exec s hs) := by
   induction hs generalizing s with
@@ -804,6 +808,7 @@ def opActs (mx : Nat) : Op → List Act
   | .send ev => .send 0 ev :: List.replicate (mx + 6) (.step 0) ++ [.ack 0]
   | .poll id => .poll 0 id :: List.replicate (mx + 6) (.step 0) ++ [.ack 0]
   | .release ev => [.release ev]
+  | .cancel id => [.cancel id]
 
 theorem exec1_eq_run (s : St) (op : Op) : exec1 s op = run s (opActs s.MAX op) := by
   cases op <;>
@@ -833,6 +838,7 @@ theorem exec1_drains {s : St} {op : Op} (h : WF s) (hl : Legal s op) : (exec1 s 
   | send ev => simp only [exec1, (opSend_spec 0 ev h).2, drains_specSend]
   | poll id => simp only [exec1, (opPoll_spec 0 id h).2, specPoll]; split <;> rfl
   | release ev => rfl
+  | cancel id => rfl
 
 theorem fresh_exec1 {s : St} {op : Op} (h : WF s) (hd : s.drains = true) (hf : Fresh s) (hl : Legal s op) :
     Fresh (exec1 s op) := by
@@ -875,6 +881,7 @@ theorem fresh_exec1 {s : St} {op : Op} (h : WF s) (hd : s.drains = true) (hf : F
       · exact this
     · exact hf
   | release ev => exact hf
+  | cancel id => exact hf
 
 theorem fresh_init (mx n : Nat) (f : Flavor) (d : Bool) : Fresh (init mx n f d) := fun _ _ => rfl
 
@@ -926,6 +933,7 @@ theorem di_exec1 {s : St} {op : Op} (h : WF s) (hd : DI s) (hl : Legal s op) : D
       · exact Nat.le_refl _
     · exact hd
   | release ev => exact hd
+  | cancel id => exact hd
 
 theorem di_exec {s : St} {hs : List Op} (h : WF s) (hd : DI s) (hl : LegalH s hs) : DI (exec s hs) := by
   induction hs generalizing s with
@@ -977,6 +985,7 @@ theorem sendsIn_arc (s : St) (h : List Op) (hw : WF s) (hl : LegalH s h) (hf : s
       | send ev => simp only [exec1, (opSend_spec 0 ev hw).2, flavor_specSend, hf]
       | poll id => simp only [exec1, (opPoll_spec 0 id hw).2, specPoll]; split <;> exact hf
       | release ev => exact hf
+      | cancel id => exact hf
     have := ih (exec1 s op) (wf_exec1 hw hl.1) hl.2 hfl
     cases op <;> simp only [sendsIn, sentBy, List.filterMap_cons, List.nil_append, this]
     simp [accepts, hf]
@@ -1018,6 +1027,9 @@ theorem acct_exec1 {s : St} {op : Op} {id : Nat} (h : WF s) (hid : id ∈ s.live
       · simp [dlv, List.filter_append, hj, Ne.symm hj]
     · exact ⟨hid, rfl, rfl⟩
   | release ev =>
+    simp only [exec1, apply, sentBy, dlv, List.append_nil]
+    exact ⟨hid, trivial, trivial⟩
+  | cancel id' =>
     simp only [exec1, apply, sentBy, dlv, List.append_nil]
     exact ⟨hid, trivial, trivial⟩
 
